@@ -418,6 +418,37 @@ theorem C05_checker_complete (h : List HOp) (hws : wellStamped h.toArray = true)
     ∀ budget, decideHist h budget = .accept ∨ decideHist h budget = .reject "budget-exhausted" :=
   ⟨decideHist_complete_unbounded h hws hlin, fun b => decideHist_complete h b hws hlin⟩
 
+theorem perm_three (w : List Nat) (h : w.Perm [0, 1, 2]) :
+    w = [0, 1, 2] ∨ w = [0, 2, 1] ∨ w = [1, 0, 2] ∨ w = [1, 2, 0] ∨ w = [2, 0, 1] ∨ w = [2, 1, 0] := by
+  have hl := h.length_eq
+  match w, hl, h with
+  | [a, b, c], _, h =>
+    have ha : a ∈ [0, 1, 2] := h.subset (by simp)
+    have hb : b ∈ [0, 1, 2] := h.subset (by simp)
+    have hc : c ∈ [0, 1, 2] := h.subset (by simp)
+    have hnd : [a, b, c].Nodup := h.nodup_iff.mpr (by decide)
+    simp only [List.mem_cons, List.not_mem_nil, or_false] at ha hb hc
+    simp only [List.nodup_cons, List.mem_cons, List.not_mem_nil, or_false, not_or, List.nodup_nil, and_true] at hnd
+    rcases ha with rfl | rfl | rfl <;> rcases hb with rfl | rfl | rfl <;> rcases hc with rfl | rfl | rfl <;> simp_all
+
+/-- The history the UNREPAIRED flushkv produced (forced-schedule scenario `flushclose`, before fix b5d5462): a `Set` through
+flushkv answers ErrStoreClosed although a `Get` that completed before `Close` was even invoked had read its value. -/
+def unrepairedFlushkvHistory : List HOp :=
+  [{ inv := 1, ret := 8, kind := .data (.set [1, 0] [170]), out := .closed },
+   { inv := 2, ret := 3, kind := .data (.get [1, 0]), out := .val [170] },
+   { inv := 4, ret := 5, kind := .close, out := .ok }]
+
+/-- **Witness of the fixed finding**: that history has no linearisation w.r.t. the C04 contract (none of the six orders of its
+three operations validates: the `Set` answers `closed` only after `Close`, the `Get` reads its value only after the `Set`, and
+the `Get` returned before `Close` was invoked) - the statement of C05 was violated by the code before b5d5462.  The same
+history is entry `flushkv-prefix-closed-but-applied` of the harness corpus, which both checkers must reject on every run;
+`C05_closed_answer_means_no_effect` is the theorem about the repaired code that excludes it. -/
+theorem C05_unrepaired_flushkv_history_witness : ¬ Linearizable unrepairedFlushkvHistory.toArray := by
+  rintro ⟨w, hp, hrt, hs⟩
+  have hv : validate unrepairedFlushkvHistory.toArray w = true := (validate_iff _ _).mpr ⟨hp, hrt, hs⟩
+  have hp3 : w.Perm [0, 1, 2] := hp
+  rcases perm_three w hp3 with rfl | rfl | rfl | rfl | rfl | rfl <;> revert hv <;> decide
+
 end Hive.KV.Lin
 
 namespace Hive.KV.Conc
